@@ -14,7 +14,10 @@ Go code modelled (quartz/scheduler.go):
 * `startWorkers` — `if !BlockingExecution && WorkerLimit > 0 { for i := 0; i < WorkerLimit; i++ { go worker } }`,
   a worker is `for { select { case <-ctx.Done(): return; case j := <-sched.dispatch: executeWithRetries(j) } }`:
   it executes one job at a time and receives the next one only after the previous returned.
-* `NewStdScheduler` — `dispatch: make(chan ScheduledJob)`: capacity 0, a send completes iff a receiver is ready.
+* `Start` — `dispatch := make(chan ScheduledJob)`: capacity 0, a send completes iff a receiver is ready; ONE channel
+  PER RUN, handed to the loop and to the workers of that run only (`startExecutionLoop(ctx, dispatch)`,
+  `startWorkers(ctx, dispatch)`). This is what allows a run to be modelled in isolation (the first part of this file);
+  the second part (`RSt`, several runs side by side) proves it and shows what the formerly shared channel allowed.
 
 The shape of that code (`Code`: channel capacity, order / conditions of the switch cases, conjuncts of the
 `startWorkers` guard) is a parameter of the model; `Code.std` is what the source says today and the fact
@@ -172,5 +175,112 @@ def busy (s : St) : Nat := s.workers.count true
 
 /-- number of job executions in progress (calls of `executeWithRetries` that have not returned) -/
 def inflight (s : St) : Nat := (if s.pc = .executing then 1 else 0) + busy s + s.spawned
+
+/-! ## several runs of one scheduler side by side: who receives whose hand-off
+
+After `Stop(); Start()` the goroutines of the stopped run may still be alive (a worker inside a job that ignores its
+context) next to the loop and the workers of the new run. `RSt` keeps one record per run. The loop of run `g` sends on
+the channel `chanOf g`; the workers of run `h` receive on `chanOf h`: a hand-off from loop `g` to a worker of run `h` is
+possible iff these are the same channel. `RunsCode.perRun` says whether every run makes its own channel (the code as it
+is: `dispatch := make(...)` in `Start`) or all runs use the one channel of the scheduler struct (the code before the
+repair, kept as negative control). A worker executes every job with the context of ITS OWN run (the `ctx` of the
+`startWorkers` call that created it). -/
+
+structure RunsCode where
+  /-- `dispatch := make(chan ScheduledJob)` in `Start`, passed to the loop and the workers of that run -/
+  perRun : Bool
+deriving DecidableEq, Repr
+
+def RunsCode.std : RunsCode := { perRun := true }
+
+/-- the channel the loop / the workers of run `g` use -/
+def RunsCode.chanOf (code : RunsCode) (g : Nat) : Nat := if code.perRun then g else 0
+
+/-- a worker goroutine: in its `select`, inside `executeWithRetries` with a job handed off by the loop of run `src`,
+    or returned -/
+inductive WorkerSt
+  | idle
+  | busy (src : Nat)
+  | exited
+deriving DecidableEq, Repr
+
+structure RunRec where
+  /-- the run's context is cancelled (Stop, cancellation) -/
+  cancelled : Bool
+  loopAlive : Bool
+  /-- the loop holds a fetched job in the hand-off `select` -/
+  holding : Bool
+  workers : List WorkerSt
+deriving DecidableEq, Repr
+
+structure RSt where
+  runs : List RunRec
+deriving DecidableEq, Repr
+
+inductive RAct
+  | start (n : Nat)                  -- an effective `Start` with WorkerLimit `n`: a new run
+  | cancel (g : Nat)                 -- `Stop` / cancellation of run `g`
+  | fetch (g : Nat)                  -- loop `g`: tick, a valid job fetched (its select may take the tick although ctx is done)
+  | handoff (g h i : Nat)            -- loop `g` → worker `i` of run `h`: rendezvous on a common channel
+  | loopExit (g : Nat)               -- loop `g` takes `<-ctx.Done()` (dropping a held job)
+  | workerDone (h i : Nat)           -- worker `i` of run `h`: `executeWithRetries` returns
+  | workerExit (h i : Nat)           -- worker `i` of run `h` takes `<-ctx.Done()`
+deriving DecidableEq, Repr
+
+def setRun (s : RSt) (g : Nat) (r : RunRec) : RSt := { runs := s.runs.set g r }
+
+def rstep (code : RunsCode) (s : RSt) : RAct → Option RSt
+  | .start n =>
+    some { runs := s.runs ++ [{ cancelled := false, loopAlive := true, holding := false,
+                                workers := List.replicate n .idle }] }
+  | .cancel g =>
+    match s.runs[g]? with
+    | some r => some (setRun s g { r with cancelled := true })
+    | none => none
+  | .fetch g =>
+    match s.runs[g]? with
+    | some r => if r.loopAlive = true ∧ r.holding = false then some (setRun s g { r with holding := true }) else none
+    | none => none
+  | .handoff g h i =>
+    match s.runs[g]?, s.runs[h]? with
+    | some rg, some rh =>
+      if rg.loopAlive = true ∧ rg.holding = true ∧ code.chanOf g = code.chanOf h ∧ rh.workers[i]? = some .idle then
+        -- two updates; for g = h they hit the same record
+        let s1 := setRun s g { rg with holding := false }
+        match s1.runs[h]? with
+        | some rh' => some (setRun s1 h { rh' with workers := rh'.workers.set i (.busy g) })
+        | none => none
+      else none
+    | _, _ => none
+  | .loopExit g =>
+    match s.runs[g]? with
+    | some r =>
+      if r.loopAlive = true ∧ r.cancelled = true
+      then some (setRun s g { r with loopAlive := false, holding := false }) else none
+    | none => none
+  | .workerDone h i =>
+    match s.runs[h]? with
+    | some r =>
+      match r.workers[i]? with
+      | some (.busy _) => some (setRun s h { r with workers := r.workers.set i .idle })
+      | _ => none
+    | none => none
+  | .workerExit h i =>
+    match s.runs[h]? with
+    | some r =>
+      if r.cancelled = true ∧ r.workers[i]? = some .idle
+      then some (setRun s h { r with workers := r.workers.set i .exited }) else none
+    | none => none
+
+def rinit : RSt := { runs := [] }
+
+def rrun (code : RunsCode) (s : RSt) : List RAct → Option RSt
+  | [] => some s
+  | a :: as => (rstep code s a).bind (fun s' => rrun code s' as)
+
+def RReach (code : RunsCode) (s : RSt) : Prop := ∃ as, rrun code rinit as = some s
+
+/-- worker `i` of run `h` is executing a job that the loop of run `g` dispatched -/
+def executes (s : RSt) (h i g : Nat) : Prop := ∃ r, s.runs[h]? = some r ∧ r.workers[i]? = some (.busy g)
 
 end Pool
